@@ -460,3 +460,49 @@ fn test_wright_omega() {
         assert!((err / z) < 1e-9);
     }
 }
+
+#[cfg(feature = "verif")]
+impl<T> crate::verif_hooks::NonsymView<T> for ExponentialCone<T>
+where
+    T: FloatT,
+{
+    fn v_is_primal_feasible(&self, s: &[T]) -> bool {
+        self.is_primal_feasible(s)
+    }
+    fn v_is_dual_feasible(&self, z: &[T]) -> bool {
+        self.is_dual_feasible(z)
+    }
+    fn v_barrier_primal(&mut self, s: &[T]) -> T {
+        self.barrier_primal(s)
+    }
+    fn v_barrier_dual(&mut self, z: &[T]) -> T {
+        self.barrier_dual(z)
+    }
+    fn v_higher_correction(&mut self, ds: &[T], v: &[T]) -> Option<Vec<T>> {
+        let mut η = vec![T::zero(); 3];
+        self.higher_correction(&mut η, ds, v);
+        Some(η)
+    }
+    fn v_update_dual_grad_H(&mut self, z: &[T]) {
+        self.update_dual_grad_H(z);
+        self.z.copy_from(z);
+    }
+    fn v_gradient_primal(&self, s: &[T]) -> Vec<T> {
+        self.gradient_primal(s).to_vec()
+    }
+    fn v_grad(&self) -> Vec<T> {
+        self.grad.to_vec()
+    }
+    fn v_H_dual(&self) -> Vec<Vec<T>> {
+        let h = &self.H_dual;
+        (0..3)
+            .map(|i| (0..3).map(|j| if i <= j { h[(i, j)] } else { h[(j, i)] }).collect())
+            .collect()
+    }
+    fn v_Hs(&self) -> Vec<Vec<T>> {
+        let h = &self.Hs;
+        (0..3)
+            .map(|i| (0..3).map(|j| if i <= j { h[(i, j)] } else { h[(j, i)] }).collect())
+            .collect()
+    }
+}
